@@ -21,12 +21,27 @@ P = {
  "C05": ("exploration", "property-based testing (proptest): generated files x prefixes, oracle = starts_with filter over the reference model (both directions)",
          "Forward and reverse prefix iterators are compared with a starts_with filter; generators force empty, all-FF, FF-terminated prefixes and prefixes whose successor string is itself a stored key.",
          "Trusted: the model filter; key generators concentrate on a five-letter alphabet {00,01,7f,fe,ff} to make prefix relations dense.", "5 C05"),
+ "C06": ("exploration", "property-based testing (proptest): generated key universes x overlapping sources x merge functions with a call log; oracle = union model, exactly-once merge calls in source order",
+         "0..8 sources drawn as random subsets of a key universe, each written with its own configuration, are merged with four merge functions (owned and borrowed results); the call log proves one call per shared key with the values in the order the sources were added; write_into_stream_writer is read back.",
+         "Merge functions used return a lone value unchanged, as the property requires. Trusted: BTreeMap union model.", "5 C06"),
+ "C07": ("exploration", "property-based testing (proptest): generated insert sequences x sorter configurations (hooked small budgets, public API), oracle = group-by-key model with insertion order, three exits compared",
+         "Three identically fed sorters are drained through streaming, write_into_stream_writer and into_reader_cursors (merged by the harness); each must equal the model (stable: insertion order; unstable: permutation) for budgets of 256 B..1 MiB, realloc on/off, max_nb_chunks 1..25, sequential/parallel, all chunk codecs, CursorVec/TempFile/instrumented chunk storage.",
+         "Hook H1 shrinks budgets so that spills and chunk merges happen after tens of inserts; a public-API stage runs without hooks. rayon schedules are sampled, not enumerated.", "5 C07"),
+ "C08": ("exploration", "property-based testing (proptest): long generated insert streams with an instrumented chunk creator; invariants checked after every insert",
+         "After every insert: bytes inserted since the last spill <= 2x budget (realloc) / <= budget (no realloc); live chunks <= max_nb_chunks+2 at every create and after the final flush; spilled data implies create() calls. Hooked budgets 256 B..16 KiB plus the real 10 MiB clamp with 40..80 MiB inserted.",
+         "Domain: entry <= budget/4, initial capacity <= budget (DESIGN 6.5). 'Unbounded' volume is sampled up to 80 MiB / 20 000 inserts.", "5 C08, 6.5"),
  "C09": ("exploration", "differential testing against an independent format decoder and the frozen grenad 0.4.7 (both directions), inputs from proptest generators",
          "Each generated file is decoded by a decoder written from the format description (shares no code with the tree) with every structural check on, read by grenad 0.4.7, and the same entries written by 0.4.7 are read by the current reader (scans + seek alphabet).",
          "Trusted: snap, flate2, lz4_flex, zstd for decompression; grenad 0.4.7 as published. 0.4.7's writer is not driven with index_levels=255.", "5 C09, 4.3"),
  "C10": ("exploration", "property-based testing (proptest): metamorphic V2->V1 re-encoding by an independent trailer encoder; oracle = reference model and the V2 original",
          "Single-level files are re-encoded with a 21-byte V1 trailer built independently; version/count/codec, both scans, the seek alphabet, ranges and prefixes must equal the model and the answers of the V2 original.",
          "V1 files are synthesised (no historical V1 writer is available offline); the block format is identical in both versions.", "5 C10"),
+ "C11": ("exploration", "metamorphic property-based testing (proptest): every scenario re-run over instrumented I/O driven by a generated schedule tape (partial transfers, ErrorKind::Interrupted); oracle = byte/result equality with the plain run",
+         "Writer bytes into a splitting/interrupting sink equal two plain runs; reader scans/seeks/histories/ranges/prefixes, merger output and sorter output over splitting/interrupting sources and chunk storage equal the plain results, for all codecs.",
+         "Interrupted is injected on read/write only; a short transfer moves >= 1 byte. Schedules are generated tapes of 1..64 bytes consumed cyclically.", "5 C11, 4.4"),
+ "C12": ("fault_enumeration", "exhaustive single-fault injection: for each generated scenario every k-th call of every component kind (write, flush, read, seek, create, merge) fails once; oracle judges every public call",
+         "A fault-free run counts component calls; then every position of every kind is failed in turn (error kinds cycled, including write returning Ok(0)). Each public call must be Ok iff no component failed during it, never panic, and the failing call must return Io with the injected ErrorKind or Merge with the injected value. Complete over fault positions per scenario; scenarios are sampled.",
+         "Single faults only; the scenario stops after the failing call. Payload identity is recorded, not judged (DESIGN 6.4).", "5 C12, 6.4"),
  "C13": ("fault_enumeration", "exhaustive crash-point (truncation) and single-byte trailer corruption enumeration per generated file + generated structured byte strings; oracle = independent trailer predicate",
          "For every generated finished file ALL truncation lengths and ALL 255 alternative values of each trailer byte are opened; plus structured synthetic strings and raw bytes. Reader::new must succeed iff an independent predicate finds a complete trailer, never panic, and report the parsed fields. Enumeration is complete per file; files are sampled.",
          "Crash model: a crash leaves a prefix of the finished byte stream (any length). Trusted: the independent predicate in fmtdec::parse_trailer.", "5 C13"),
@@ -36,6 +51,12 @@ P = {
  "C15": ("exploration", "property-based testing (proptest): generated files, validity predicate over the block table produced by the independent decoder",
          "For every emitted data block and every index block at depth >= 2 of every generated file: without its last entry (and the offset slot it opened) the block is below B, and a block that is not the last of its level reached B. Entry sizes are generated around B/3, B/2, B-1, B, 3B.",
          "Block sizes are measured on the decoder's uncompressed blocks; the lower inequality is the reading 'emitted as soon as it reaches B' (DESIGN 6.2).", "5 C15, 6.2"),
+ "C16": ("exploration", "property-based testing (proptest) + exhaustive reachable-state exploration over an instrumented source that logs every seek and read per public call; oracle = load-count bound and read containment against the independent decoder's block map",
+         "Files up to 60 000 entries / thousands of 1 KiB blocks with levels 0..6: Reader::new reads only the trailer; every operation of 200-step histories (and every state x operation of small deep files) does <= 2*(levels+2) block loads, seeks only to block starts and reads only inside the sought block.",
+         "A load is counted both as a seek and as a read at a block start; the larger count is judged. File sizes are sampled up to 60 000 entries.", "5 C16"),
+ "C17": ("exploration", "property-based testing (proptest) under a checking global allocator (guard bands, layout table, double-free, minimal alignment, leak over repeated runs) with overflow checks and debug assertions; thorough adds libFuzzer+ASan and Miri",
+         "Insert-size sequences are aimed by a simulation of the buffer arithmetic at exact fits, 1..15 bytes left, 1..5 doublings and over-budget entries; every alloc/dealloc of the run is checked for layout equality, band integrity, double free, zero-size requests; reader paths run under the same allocator; content is checked by C07's oracle.",
+         "Dynamic detection on executed paths only: absence of UB is not established. ASan does not see layout mismatches (the checking allocator does); Miri cannot run zstd.", "5 C17, 4.5"),
  "C18": ("exploration", "property-based testing (proptest): perturbed insert sequences under catch_unwind; oracle = (panic only on a non-ascending prefix) or (every block sorted per the independent decoder)",
          "Sorted lists are perturbed (swap, duplicate, equal keys, reversed runs, and a non-increasing key placed right after a block emission); either the writer panics at or after the first out-of-order insert, or the independent decoder finds every data and index block strictly ascending.",
          "A panic before the first out-of-order insert, or on sorted input, is reported as a violation too.", "5 C18"),
